@@ -96,6 +96,66 @@ def toHex (bs : Bytes) : String :=
 def toHexBytes (bs : Bytes) : Bytes :=
   bs.flatMap fun b => [UInt8.ofNat (hexDigit (b.toNat / 16)).toNat, UInt8.ofNat (hexDigit (b.toNat % 16)).toNat]
 
+/-! ### packing into machine words (used by the hash functions) -/
+
+/-- big-endian 32-bit words of a byte string; a trailing group of fewer than 4 bytes is dropped -/
+def be32WordsGo : Bytes → Array UInt32 → Array UInt32
+  | a :: b :: c :: d :: rest, acc =>
+    be32WordsGo rest
+      (acc.push ((a.toUInt32 <<< 24) ||| (b.toUInt32 <<< 16) ||| (c.toUInt32 <<< 8) ||| d.toUInt32))
+  | _, acc => acc
+
+def be32Words (bs : Bytes) : Array UInt32 := be32WordsGo bs (Array.mkEmpty (bs.length / 4))
+
+/-- little-endian 32-bit words -/
+def le32WordsGo : Bytes → Array UInt32 → Array UInt32
+  | a :: b :: c :: d :: rest, acc =>
+    le32WordsGo rest
+      (acc.push ((d.toUInt32 <<< 24) ||| (c.toUInt32 <<< 16) ||| (b.toUInt32 <<< 8) ||| a.toUInt32))
+  | _, acc => acc
+
+def le32Words (bs : Bytes) : Array UInt32 := le32WordsGo bs (Array.mkEmpty (bs.length / 4))
+
+/-- big-endian 64-bit words -/
+def be64WordsGo : Bytes → Array UInt64 → Array UInt64
+  | a :: b :: c :: d :: e :: f :: g :: h :: rest, acc =>
+    be64WordsGo rest
+      (acc.push ((a.toUInt64 <<< 56) ||| (b.toUInt64 <<< 48) ||| (c.toUInt64 <<< 40) ||| (d.toUInt64 <<< 32)
+        ||| (e.toUInt64 <<< 24) ||| (f.toUInt64 <<< 16) ||| (g.toUInt64 <<< 8) ||| h.toUInt64))
+  | _, acc => acc
+
+def be64Words (bs : Bytes) : Array UInt64 := be64WordsGo bs (Array.mkEmpty (bs.length / 8))
+
+/-- little-endian 64-bit words -/
+def le64WordsGo : Bytes → Array UInt64 → Array UInt64
+  | a :: b :: c :: d :: e :: f :: g :: h :: rest, acc =>
+    le64WordsGo rest
+      (acc.push ((h.toUInt64 <<< 56) ||| (g.toUInt64 <<< 48) ||| (f.toUInt64 <<< 40) ||| (e.toUInt64 <<< 32)
+        ||| (d.toUInt64 <<< 24) ||| (c.toUInt64 <<< 16) ||| (b.toUInt64 <<< 8) ||| a.toUInt64))
+  | _, acc => acc
+
+def le64Words (bs : Bytes) : Array UInt64 := le64WordsGo bs (Array.mkEmpty (bs.length / 8))
+
+def ofU32be (w : UInt32) : Bytes :=
+  [(w >>> 24).toUInt8, (w >>> 16).toUInt8, (w >>> 8).toUInt8, w.toUInt8]
+
+def ofU32le (w : UInt32) : Bytes :=
+  [w.toUInt8, (w >>> 8).toUInt8, (w >>> 16).toUInt8, (w >>> 24).toUInt8]
+
+def ofU64be (w : UInt64) : Bytes :=
+  [(w >>> 56).toUInt8, (w >>> 48).toUInt8, (w >>> 40).toUInt8, (w >>> 32).toUInt8,
+   (w >>> 24).toUInt8, (w >>> 16).toUInt8, (w >>> 8).toUInt8, w.toUInt8]
+
+def ofU64le (w : UInt64) : Bytes :=
+  [w.toUInt8, (w >>> 8).toUInt8, (w >>> 16).toUInt8, (w >>> 24).toUInt8,
+   (w >>> 32).toUInt8, (w >>> 40).toUInt8, (w >>> 48).toUInt8, (w >>> 56).toUInt8]
+
+/-- Merkle–Damgård padding (FIPS 180-4 §5.1, RFC 1321 §3.1-3.2): the message, one byte 0x80, the least number
+of zero bytes, then the bit length in `lenField` bytes; the result is a multiple of `block` bytes. -/
+def mdPad (block : Nat) (lenField : Bytes) (bs : Bytes) : Bytes :=
+  let used := bs.length + 1 + lenField.length
+  bs ++ (0x80 :: (zeros ((block - used % block) % block) ++ lenField))
+
 end Bytes
 
 end Qx
